@@ -337,3 +337,323 @@ Proof.
   split; [exact (chain_at_any _ _ _ _ _ Hch)|]. unfold heads. apply in_or_app. right.
   apply (own_head_in T _ _ Hn). cbn [own_head]. apply N.leb_le in Hge. rewrite Hge. left. reflexivity.
 Qed.
+
+(* ================================================================== 3. Delete *)
+(* paths through the pruned tree: every file node but the deleted one stays where it is *)
+Lemma crd_node_at_prune pb po e0 ch0 T path e ch :
+  only_n0 pb po e0 ch0 (all_nodes T) ->
+  node_at T path (NFile e ch) -> NFile e ch <> NFile e0 ch0 ->
+  node_at (prune_list pb po T) path (NFile e ch).
+Proof.
+  intros Honly Hat Hne.
+  assert (Hk : forall m, In m (all_nodes T) -> m <> NFile e0 ch0 -> keep pb po m = true).
+  { intros m Hm Hn. destruct (keep pb po m) eqn:E; [reflexivity|]. contradiction (Hn (Honly m Hm E)). }
+  change (NFile e ch) with (prune_node pb po (NFile e ch)).
+  apply (node_at_map (prune_node pb po) (fun m => keep pb po m = true) T).
+  - intros m Hm. rewrite prune_entry. destruct m as [e1 ch1|e1 ch1 ks].
+    + split; [reflexivity|]. split; [reflexivity|intros k []].
+    + rewrite prune_node_dir. split; [reflexivity|]. split; [reflexivity|].
+      intros k Hk0 Hok. cbn [node_kids] in *. unfold prune_list. apply in_map. apply filter_In. split; assumption.
+  - intros m Hm Hd. apply (Hk m Hm). intros ->. discriminate Hd.
+  - exact Hat.
+  - apply Hk; [exact (node_at_in _ _ _ Hat)|exact Hne].
+  - intros k Hk0 Hok. unfold prune_list. apply in_map. apply filter_In. split; assumption.
+Qed.
+
+Lemma crd_resolves_in s d di dd vi v : PrModes.resolves s d di dd vi v -> In dd (s_dirs s) /\ d_id dd = d.
+Proof.
+  intros (_ & H1 & H2 & _). rewrite PrHandles.get_dir_by_id_eq in H1.
+  destruct (find_idx (fun x => d_id x =? d) (s_dirs s) 0) as [i|] eqn:E; [|discriminate H1].
+  injection H1 as ->. destruct (find_idx_nth _ _ _ _ E) as (x & Hx & Hp). rewrite Nat.sub_0_r in Hx.
+  rewrite PrHandles.get_dir_eq, Hx in H2. injection H2 as ->.
+  split; [exact (nth_error_In _ _ Hx)|apply N.eqb_eq; exact Hp].
+Qed.
+
+(* the accepted deletion (hypotheses of PrGlobalDelete.del_core): the run, and every crashed
+   medium of it *)
+Theorem del_crash_core fsz vid s1 v bl rch T dc bl' parent kids sfn t :
+  fs_inv_at fsz vid s1 0 v bl rch T -> del_ctx (s_disk s1) v T dc bl' parent kids ->
+  sfn_shape sfn -> get8 sfn 0 <> 229 ->
+  find (t_matches sfn) (live_in_blocks (s_disk s1) bl') = Some t ->
+  is_directory (e_attr (t_entry (v_fat32 v) t)) = false ->
+  PrModes.is_open s1 (v_id v) (t_entry (v_fat32 v) t) = false ->
+  exists ch s',
+    (delete_directory_entry 0 dc sfn ;;; free_cluster_chain 0 (e_cluster (t_entry (v_fat32 v) t))) s1 = (Ok tt, s') /\
+    In (NFile (t_entry (v_fat32 v) t) ch) (all_nodes T) /\ t_name t = sfn /\ In (fst (fst t)) bl' /\
+    forall d', crash_disks s1 s' d' ->
+      med_ok v (s_disk s1) T (fun n => n <> NFile (t_entry (v_fat32 v) t) ch) d'.
+Proof.
+    intros Hat Hctx Hs H229 Hfind Hndir Hclosed.
+    destruct (del_found (s_disk s1) v T dc bl' parent kids sfn t Hctx Hs H229 Hfind Hndir)
+      as (Hlive & Hname & Hdot & Hnodes & ch & Hkid & Hrep).
+    destruct (dir_nodes_in (s_disk s1) bl' t Hnodes) as (_ & _ & blk & i & Hb & Hi & Et).
+    destruct (del_facts _ _ _ _ _ _ _ _ Hat) as (Hl & Hnf & Hc & Ev & _ & Hv0 & Hvok & L & Hwf & Hvid & Hpre).
+    pose proof (fi_layout _ _ _ _ _ _ _ _ Hat) as PL.
+    pose proof (fi_disk _ _ _ _ _ _ _ _ Hat) as HD.
+    pose proof (di_wf _ _ _ _ _ _ HD) as W. pose proof (di_tree _ _ _ _ _ _ HD) as HT.
+    pose proof (di_root _ _ _ _ _ _ HD) as Hroot.
+    pose proof (dx_sub _ _ _ _ _ _ _ Hctx _ Hkid) as Hn0.
+    assert (He0 : is_end (slot (disk_get (s_disk s1) blk) i) = false).
+    { unfold dir_live in Hlive. apply In_before_end_all in Hlive. destruct Hlive as [_ H]. rewrite Et in H. exact H. }
+    (* the slot write *)
+    pose proof (delete_directory_entry_spec 0 v dc sfn s1 bl' Hv0 Hvok Hnf Hc (dx_blocks _ _ _ _ _ _ _ Hctx)) as Hspec.
+    rewrite Hfind, Et in Hspec.
+    destruct (Hspec (Hwf blk)) as (s2 & Hrun2 & Hd2 & _ & _ & _ & Hsw & _ & Hc2 & Hnf2 & Hm2 & l2 & Htr2 & Hl2).
+    clear Hspec. rewrite N.div_mul in Hsw by lia.
+    subst t. cbn [fst snd].
+    set (e1 := t_entry (v_fat32 v) (blk, i * 32, slot (disk_get (s_disk s1) blk) i)) in *.
+    assert (Hpos : e_block e1 = blk /\ e_offset e1 = i * 32) by (split; reflexivity).
+    assert (Hblk : In blk (tree_dir_blocks v bl T)).
+    { destruct (del_node_where (s_disk s1) v bl T _ HT Hn0) as (_ & _ & _ & H). exact H. }
+    assert (Hnfat : ~ fat_area v blk) by exact (asm_nfat _ _ _ _ _ _ _ _ Hat blk Hblk).
+    assert (Hfat2 : forall j, fat_area v j -> disk_get (s_disk s2) j = disk_get (s_disk s1) j)
+      by exact (kill_fat (s_disk s1) (s_disk s2) v blk i _ Hsw Hnfat).
+    (* the state after the slot write *)
+    assert (Hvols2 : s_vols s2 = [v]) by (rewrite (proj1 Hm2); exact Ev).
+    assert (Hwf2 : blocks_wf (s_disk s2)).
+    { rewrite Hd2. apply blocks_wf_set; [exact Hwf|]. rewrite set_bytes_length; [apply Hwf|].
+      rewrite (Hwf blk). cbn [length]. lia. }
+    assert (Hst2 : st_ok 0 v fsz s2).
+    { split; [exact Hnf2|]. split; [exact Hc2|]. split; [rewrite Hvols2; reflexivity|]. intros k _. apply Hwf2. }
+    assert (W2 : fat_wf (s_disk s2) v (heads v T ++ pend_of s1 v)) by exact (fat_wf_ext (s_disk s1) _ v _ Hfat2 W).
+    assert (Hstep2 : PrOrder.tsteps s1 s2 [blk]) by exact (del_write_tsteps s1 s2 blk _ l2 Htr2 Hl2).
+    assert (Hrep' := Hrep). apply node_rep_file in Hrep'. destruct Hrep' as (_ & _ & Hec).
+    exists ch.
+    pose proof (tm_delete_directory_entry 0 dc sfn s1 _ _ Hrun2) as T12.
+    destruct (crd_one_write s1 s2 blk T12 Hstep2) as (bk & X12).
+    pose proof (disk_inv_crash_inv_at _ _ _ _ _ _ HD) as CI1.
+    set (T1 := prune_list blk (i * 32) T).
+    assert (TI2 : tree_inv (s_disk s2) v bl rch T1).
+    { constructor.
+      - exact (asm_root1 _ _ _ _ _ _ _ _ Hat blk i _ Hsw Hblk).
+      - exact (asm_tree1 _ _ _ _ _ _ _ _ Hat blk i _ Hsw He0 Hblk).
+      - exact (asm_rootok1 _ _ _ _ _ _ _ _ Hat blk i _ Hsw He0 Hdot).
+      - exact (asm_nodes1 _ _ _ _ _ _ _ _ Hat blk i _ Hsw He0 Hdot).
+      - exact (prune_positions blk (i * 32) T (di_pos _ _ _ _ _ _ HD)). }
+    assert (Honly : only_n0 blk (i * 32) e1 ch (all_nodes T)) by exact (asm_only _ _ _ _ _ _ _ _ Hat blk i e1 ch Hn0 Hpos).
+    (* a medium that has the pruned tree of s2: same directory blocks, same chains of its heads *)
+    assert (Hmed : forall d' lost,
+       fat_wf d' v ((heads v T1 ++ pend_of s1 v) ++ lost) ->
+       (forall h ch2, In h (heads v T1 ++ pend_of s1 v) -> chain_at (s_disk s2) v h ch2 -> chain_at d' v h ch2) ->
+       (forall j, PrCrash.non_fat v fsz j -> disk_get d' j = disk_get (s_disk s2) j) ->
+       med_ok v (s_disk s1) T (fun n => n <> NFile e1 ch) d').
+    { intros d' lost Wd Hcd Hnf'.
+      assert (Hdirnf : forall j, PrBounds.in_dir v j -> disk_get d' j = disk_get (s_disk s2) j).
+      { intros j Hj. apply Hnf'. intros cp k Hk. exact (del_in_dir_frame v fsz j PL Hj cp k Hk). }
+      destruct (fatf_disk_parts (s_disk s2) d' v bl rch T1) as (P1 & P2 & P3 & P4).
+      - intros j Hj. apply Hdirnf.
+        exact (del_tree_block_in_dir (s_disk s2) v bl rch T1 j (ti_root _ _ _ _ _ TI2) (ti_tree _ _ _ _ _ TI2) Hj).
+      - intros h0 ch2 Hh0. apply Hcd. apply in_or_app. left. exact Hh0.
+      - exact (ti_root _ _ _ _ _ TI2).
+      - exact (ti_tree _ _ _ _ _ TI2).
+      - exact (ti_rootok _ _ _ _ _ TI2).
+      - exact (ti_nodes _ _ _ _ _ TI2).
+      - exists bl, rch, T1, (pend_of s1 v ++ lost). split; [|split].
+        + apply tree_inv_crash_inv_at; [constructor; try assumption; exact (ti_pos _ _ _ _ _ TI2)|].
+          rewrite app_assoc. exact Wd.
+        + intros path e ch2 Hn Hne. exact (crd_node_at_prune blk (i * 32) e1 ch T path e ch2 Honly Hn Hne).
+        + intros e ch2 j Hn Hne Hj.
+          assert (Hjnf : PrCrash.non_fat v fsz j).
+          { pose proof Hj as Hj'. unfold data_blocks in Hj'. apply in_flat_map in Hj'. destruct Hj' as (x & Hx & Hjx).
+            assert (Hne2 : ch2 <> []) by (intros ->; destruct Hx).
+            destruct (crd_file_chain _ v bl rch T _ e ch2 HD Hn Hne2) as (Hc2' & _).
+            exact (PrCrash.cluster_block_non_fat v fsz x j L (proj1 (chain_at_mem _ _ _ _ x Hc2' Hx)) Hjx). }
+          rewrite (Hnf' j Hjnf). apply (proj1 Hsw). intros ->.
+          exact (crd_file_data_not_dir _ v bl rch T _ _ fsz e ch2 blk HD PL Hn Hj Hblk). }
+    destruct Hec as [(Hge & fu & Hch)|(Hlt & ->)].
+    - (* a file with a chain *)
+      destruct (chain_at_head _ _ _ _ (chain_at_any _ _ _ _ _ Hch)) as (rest & ->).
+      set (h := e_cluster e1) in *.
+      assert (Hch2 : chain_of (s_disk s2) v h fu = Some (h :: rest)) by (rewrite (chain_of_ext (s_disk s1) _ v Hfat2); exact Hch).
+      assert (Hheads : node_heads (NFile e1 (h :: rest)) = [h]).
+      { cbn [node_heads]. fold h. apply N.leb_le in Hge. rewrite Hge. reflexivity. }
+      assert (Hh : In h (heads v T ++ pend_of s1 v)).
+      { apply in_or_app. left. unfold heads. apply in_or_app. right.
+        apply (own_head_in T _ h Hn0). change (own_head (NFile e1 (h :: rest))) with (node_heads (NFile e1 (h :: rest))).
+        rewrite Hheads. left. reflexivity. }
+      assert (W2' : fat_wf (s_disk s2) v ((heads v T1 ++ pend_of s1 v) ++ [h])).
+      { unfold T1. apply (del_fat_wf_set _ v (heads v T ++ pend_of s1 v)); [| |exact W2].
+        - apply nodup_app; [exact (asm_heads_nodup _ _ _ _ _ _ _ _ Hat blk i)|constructor; [intros []|constructor]|].
+          intros x Hx [<-|[]]. apply (asm_heads_in _ _ _ _ _ _ _ _ Hat blk i e1 (h :: rest) Hn0 Hpos) in Hx.
+          destruct Hx as (_ & B). apply B. rewrite Hheads. left. reflexivity.
+        - intros x. rewrite in_app_iff, (asm_heads_in _ _ _ _ _ _ _ _ Hat blk i e1 (h :: rest) Hn0 Hpos x), Hheads.
+          cbn [In]. split.
+          + intros [(A & _)|[<-|[]]]; [exact A|exact Hh].
+          + intros A. destruct (N.eq_dec x h) as [->|Hne]; [right; left; reflexivity|left; split; [exact A|]].
+            intros [E|[]]. congruence. }
+      destruct (C10_free_prefix_chains 0 v fsz s2 h rest fu L Hst2 Hch2) as (s' & Hrun3 & Tr3 & Hk).
+      exists s'. split; [rewrite (bind_ok _ _ _ _ _ Hrun2); exact Hrun3|]. split; [exact Hn0|].
+      split; [exact Hname|]. split; [exact Hb|].
+      pose proof (tr_ext_traced _ _ _ Tr3) as T23.
+      assert (Hfreemed : forall d', crash_disks s2 s' d' -> med_ok v (s_disk s1) T (fun n => n <> NFile e1 (h :: rest)) d').
+      { intros d' Hd. apply (crash_disks_tr_ext s2 s' _ d' Tr3) in Hd. destruct Hd as (k & _ & ->).
+        destruct (Hk k) as (j0 & j1 & _ & _ & _ & Hout & Hoth & Hthis & Hnfk).
+        destruct (crd_free_stage (s_disk s2) _ v (heads v T1 ++ pend_of s1 v) h rest W2' (chain_at_any _ _ _ _ _ Hch2)
+                    (fun x _ X2 Hni => Hout x (layout_sector v fsz x L X2) Hni)) as (lost & Wk & Hck).
+        - destruct Hthis as [A|[(B1 & B2 & m & Bm & Bz & Bk)|(C1 & C2)]].
+          + left. exact (chain_at_any _ _ _ _ _ A).
+          + right. left. split; [exact (chain_at_any _ _ _ _ _ B1)|]. exists m. split; [exact Bm|]. split; assumption.
+          + right. right. split; assumption.
+        - exact (Hmed _ lost Wk Hck Hnfk). }
+      intros d' Hd. destruct (crash_disks_trans s1 s2 s' d' T12 T23 Hd) as [X|X].
+      + destruct (crash_disks_one s1 s2 blk bk d' X12 X) as [-> | ->].
+        * exact (med_ok_refl v _ bl rch T _ _ CI1).
+        * apply Hfreemed. apply crash_disks_old.
+      + exact (Hfreemed d' X).
+    - (* an empty file: nothing to free *)
+      assert (Hheads : node_heads (NFile e1 []) = []).
+      { cbn [node_heads]. apply N.leb_gt in Hlt. rewrite Hlt. reflexivity. }
+      exists s2. split; [rewrite (bind_ok _ _ _ _ _ Hrun2); exact (free_reserved 0 _ s2 Hlt)|]. split; [exact Hn0|].
+      split; [exact Hname|]. split; [exact Hb|].
+      intros d' Hd. destruct (crash_disks_one s1 s2 blk bk d' X12 Hd) as [-> | ->].
+      + exact (med_ok_refl v _ bl rch T _ _ CI1).
+      + apply (Hmed _ []).
+        * rewrite app_nil_r. unfold T1. apply (del_fat_wf_set _ v (heads v T ++ pend_of s1 v)); [| |exact W2].
+          -- exact (asm_heads_nodup _ _ _ _ _ _ _ _ Hat blk i).
+          -- intros x. rewrite (asm_heads_in _ _ _ _ _ _ _ _ Hat blk i e1 [] Hn0 Hpos x), Hheads.
+             split; [intros (A & _); exact A|intros A; split; [exact A|intros []]].
+        * intros h0 ch2 _ H. exact H.
+        * reflexivity.
+Qed.
+
+(* every outcome of the call *)
+Theorem step_med_Delete fsz vid d name : step_med fsz vid (Delete d name).
+Proof.
+  intros s r s' vi v bl rch T Hat _ Hknown Hs d' Hd.
+  pose proof (proj2 Hknown) as Hname. cbn [step] in Hs.
+  destruct (del_facts _ _ _ _ _ _ _ _ Hat) as (Hl & Hnf & Hc & Ev & E0 & Hv0 & Hvok & _). subst vi.
+  assert (Hsame : s' = s -> med_ok v (s_disk s) T (fun n => ~ op_targets s v (Delete d name) (node_entry n)) d').
+  { intros ->. apply (med_ok_quiet fsz vid s 0%nat v bl rch T _ s d' Hat); [|exact Hd]. apply step_writes_same. reflexivity. }
+  destruct (del_resolve _ _ _ _ _ _ _ _ d Hat) as [Hno|di dd H1 H2 Hne H3|di dd Hres Hvol Hdir].
+  - (* stale handle *)
+    destruct (PrHandles.C08_stale_dir_handle d s Hl Hno) as (_ & _ & _ & E1 & _). specialize (E1 name). cbn [step] in E1.
+    rewrite E1 in Hs. injection Hs as <- <-. exact (Hsame eq_refl).
+  - (* a handle of another volume id *)
+    assert (E : delete_file_in_dir d name s = (Err BadHandle, s)).
+    { unfold delete_file_in_dir. rewrite (PrHandles.locked_free _ s Hl).
+      rewrite (bind_ok _ _ _ _ _ H1), (bind_ok _ _ _ _ _ H2). apply bind_err. exact H3. }
+    rewrite (lift_err' _ _ _ _ _ E) in Hs. injection Hs as <- <-. exact (Hsame eq_refl).
+  - pose proof Hres as (_ & H1 & H2 & H3 & H4).
+    destruct (sfn_of_str name) as [sfn|] eqn:Hsfn.
+    2:{ (* bad name *)
+      assert (E : delete_file_in_dir d name s = (Err FilenameError, s)).
+      { unfold delete_file_in_dir. rewrite (PrHandles.locked_free _ s Hl).
+        rewrite (bind_ok _ _ _ _ _ H1), (bind_ok _ _ _ _ _ H2), (bind_ok _ _ _ _ _ H3), Hsfn. reflexivity. }
+      rewrite (lift_err' _ _ _ _ _ E) in Hs. injection Hs as <- <-. exact (Hsame eq_refl). }
+    pose proof (del_sfn_shape name sfn Hsfn) as Hshape.
+    assert (H229 : get8 sfn 0 <> 229).
+    { cbn [op_name_ok] in Hname. unfold e5_name in Hname. rewrite Hsfn in Hname. apply N.eqb_neq. exact Hname. }
+    destruct (del_ctx_of _ _ _ _ _ _ _ _ (d_cluster dd) Hat Hdir) as (bl' & parent & kids & Hctx).
+    destruct (C06_find 0 v (d_cluster dd) sfn s bl' Hv0 Hvok Hnf Hc (dx_blocks _ _ _ _ _ _ _ Hctx)) as (s1 & Hrun & Hro).
+    pose proof (PrModes.find_directory_entry_reads_only _ _ _ _ _ _ Hrun) as Hrd.
+    assert (Hro' : ro_step s s1) by exact Hro.
+    pose proof (del_ro _ _ _ _ _ _ _ _ _ Hat Hro') as Hat1.
+    destruct Hro as (Hd1 & _ & _ & Hm1).
+    assert (Hvols1 : s_vols s1 = s_vols s) by exact (proj1 Hm1).
+    pose proof (tsteps_nil_writes _ _ (del_reads_only_tsteps _ _ Hrd)) as Hq1.
+    assert (Hread : s' = s1 -> med_ok v (s_disk s) T (fun n => ~ op_targets s v (Delete d name) (node_entry n)) d').
+    { intros ->. exact (med_ok_quiet fsz vid s 0%nat v bl rch T _ s1 d' Hat Hq1 Hd). }
+    destruct (find (t_matches sfn) (live_in_blocks (s_disk s) bl')) as [t|] eqn:Hfind.
+    + set (e := t_entry (v_fat32 v) t) in *.
+      destruct (is_directory (e_attr e)) eqn:Hisdir.
+      * (* the entry is a directory *)
+        destruct (PrModes.C07_delete_refusals s d di dd 0 v name sfn (Ok e) s1 DeleteDirAsFile Hres Hsfn Hrun) as (E & _).
+        { cbn [PrModes.delete_refusal]. rewrite Hisdir. reflexivity. }
+        rewrite (lift_err' _ _ _ _ _ E) in Hs. injection Hs as <- <-. exact (Hread eq_refl).
+      * destruct (PrModes.is_open s1 (d_vol dd) e) eqn:Hopen.
+        -- (* the file is open *)
+           destruct (PrModes.C07_delete_refusals s d di dd 0 v name sfn (Ok e) s1 FileAlreadyOpen Hres Hsfn Hrun) as (E & _).
+           { cbn [PrModes.delete_refusal PrModes.found_open]. rewrite Hisdir, Hopen. reflexivity. }
+           rewrite (lift_err' _ _ _ _ _ E) in Hs. injection Hs as <- <-. exact (Hread eq_refl).
+        -- (* the deletion *)
+           assert (Hv1 : get_volume_by_id (d_vol dd) s1 = (Ok 0%nat, s1)).
+           { rewrite (del_vol_lookup s1 v (d_vol dd) ltac:(rewrite Hvols1; exact Ev)).
+             rewrite Hvol, N.eqb_refl. reflexivity. }
+           pose proof (del_run_success s d di dd v name sfn e s1 Hres Hsfn Hrun Hisdir Hopen Hv1) as Erun.
+           assert (Hctx1 : del_ctx (s_disk s1) v T (d_cluster dd) bl' parent kids) by (rewrite Hd1; exact Hctx).
+           assert (Hfind1 : find (t_matches sfn) (live_in_blocks (s_disk s1) bl') = Some t) by (rewrite Hd1; exact Hfind).
+           rewrite Hvol in Hopen.
+           destruct (del_crash_core fsz vid s1 v bl rch T (d_cluster dd) bl' parent kids sfn t Hat1 Hctx1 Hshape H229 Hfind1 Hisdir Hopen)
+             as (ch & s2 & Drun & Hn0 & Hnm & Hblk & Hall).
+           fold e in Drun, Hn0, Hall. rewrite Drun in Erun. rewrite (lift_ok' _ _ _ _ _ Erun) in Hs. injection Hs as <- <-.
+           pose proof (tm_find_directory_entry 0 (d_cluster dd) sfn s _ _ Hrun) as T01.
+           pose proof (tm_bind _ _ (tm_delete_directory_entry 0 (d_cluster dd) sfn)
+                         (fun _ => tm_free_cluster_chain 0 (e_cluster e)) s1 _ _ Drun) as T12.
+           pose proof (Hall d' (crash_disks_after_reads s s1 s2 d' T01 T12 Hq1 Hd)) as Hm. rewrite Hd1 in Hm.
+           refine (med_ok_weaken v (s_disk s) T _ _ d' _ Hm).
+           intros n Hnt ->. apply Hnt. cbn [op_targets node_entry].
+           destruct (crd_resolves_in s d di dd 0%nat v Hres) as (Hdd & Hid).
+           exists dd, sfn, bl'. split; [exact Hdd|]. split; [exact Hid|]. split; [exact Hvol|]. split; [exact Hsfn|].
+           split; [exact Hnm|]. split; [exact (dx_blocks _ _ _ _ _ _ _ Hctx)|exact Hblk].
+    + (* no such entry *)
+      destruct (PrModes.C07_delete_refusals s d di dd 0 v name sfn (Err NotFound) s1 NotFound Hres Hsfn Hrun) as (E & _);
+        [reflexivity|].
+      rewrite (lift_err' _ _ _ _ _ E) in Hs. injection Hs as <- <-. exact (Hread eq_refl).
+Qed.
+
+Theorem step_crash_Delete fsz vid d name : step_crash fsz vid (Delete d name).
+Proof. apply step_med_crash. apply step_med_Delete. Qed.
+
+Theorem step_keeps_Delete fsz vid d name : step_keeps_flushed fsz vid (Delete d name).
+Proof. apply step_med_keeps. apply step_med_Delete. Qed.
+
+(* ================================================================== 4. the hypotheses are satisfiable *)
+(* PrGlobalDelete's FAT16 volume: the root directory holds a long-name slot, the file "A" (3 bytes,
+   chain 2 -> 3) and the empty file "B".  Delete "A" writes block 27 (the slot), then the FAT sector
+   11 three times (2 := end of chain, 3 := free, 2 := free).  By the theorems every one of the five
+   crashed media is crash-sound and shows "B"; the decider PrCrashDef.crash_inv_b agrees and finds
+   the lost chains the proof predicts: none, [2] (whole chain 2 -> 3), [2] and [3] (two one-cluster
+   chains), [2], none. *)
+Definition exg_tree : list node :=
+  match tree_of 2 exg_disk exg_vol [27; 28] with Some T => T | None => [] end.
+Definition exg_eB : dirent := node_entry (nth 1 exg_tree (NFile (mk_dirent [] (clock_ts 0) (clock_ts 0) 0 0 0 0 0) [])).
+
+Example del_crash_example :
+  map fst (step_writes exg_state exg_s1) = [27; 11; 11; 11] /\
+  (forall d', crash_disks exg_state exg_s1 d' -> crash_inv 16 exg_vol d') /\
+  file_on_medium exg_disk exg_vol [e_name exg_eB] exg_eB [] /\
+  (forall d', crash_disks exg_state exg_s1 d' -> file_on_medium d' exg_vol [e_name exg_eB] exg_eB []) /\
+  map (fun k => let d := prefix_disk (step_writes exg_state exg_s1) k exg_disk in
+                (crash_inv_b 2 16 d exg_vol,
+                 match tree_of 2 d exg_vol [27; 28] with
+                 | Some T => (length T, lost_heads d exg_vol (heads exg_vol T)) | None => (0%nat, []) end))
+      [0; 1; 2; 3; 4]%nat
+  = [(true, (2%nat, [])); (true, (1%nat, [2])); (true, (1%nat, [2; 3])); (true, (1%nat, [2])); (true, (1%nat, []))].
+Proof.
+  assert (F0 : id_fresh exg_state).
+  { intros x Hx E. assert (E1 : PrHandles.all_ids exg_state = [0; 5]) by (vm_compute; reflexivity).
+    assert (E2 : s_next_id exg_state = 6) by reflexivity. rewrite E1 in Hx. rewrite E2 in E.
+    destruct Hx as [<-|[<-|[]]]; discriminate E. }
+  assert (K1 : op_known_ok (Delete 5 [65])) by (split; [split; exact I|vm_compute; reflexivity]).
+  assert (ET : tree_of 2 exg_disk exg_vol [27; 28] = Some exg_tree) by (vm_compute; reflexivity).
+  assert (ER : root_of exg_disk exg_vol = Some ([27; 28], [])) by (vm_compute; reflexivity).
+  assert (EL : exists nA, exg_tree = [nA; NFile exg_eB []]) by (eexists; vm_compute; reflexivity).
+  assert (CI : crash_inv_at exg_disk exg_vol [27; 28] [] exg_tree []).
+  { constructor.
+    - exact (root_of_sound _ _ _ _ ER).
+    - exact (tree_of_sound 2 _ _ _ _ ET).
+    - apply dir_ok_b_ok. vm_compute. reflexivity.
+    - assert (H : forallb (node_ok_crash_b exg_disk exg_vol CL_ROOT) exg_tree = true) by (vm_compute; reflexivity).
+      rewrite forallb_forall in H. apply Forall_forall. intros n Hn. exact (node_ok_crash_b_ok _ _ n _ (H n Hn)).
+    - apply fat_wf_b_spec. vm_compute. reflexivity.
+    - apply nodup_pb_ok. vm_compute. reflexivity. }
+  assert (HB : file_on_medium exg_disk exg_vol [e_name exg_eB] exg_eB []).
+  { exists [27; 28], [], exg_tree, [], []. split; [exact CI|]. split; [|reflexivity].
+    destruct EL as (nA & EL). apply (na_here exg_tree (NFile exg_eB [])). rewrite EL. right. left. reflexivity. }
+  split; [vm_compute; reflexivity|].
+  split; [intros d' Hd; exact (step_crash_Delete 16 0 5 [65] exg_state _ _ exg_inv F0 K1 exg_step1 exg_vol d' eq_refl Hd)|].
+  split; [exact HB|]. split; [|vm_compute; reflexivity].
+  intros d' Hd.
+  apply (step_keeps_Delete 16 0 5 [65] exg_state _ _ exg_inv F0 K1 exg_step1 exg_vol _ _ _ eq_refl HB); [|exact Hd].
+  intros (dd & sfn & bl' & _ & _ & _ & Hs & Hn & _).
+  assert (E : sfn_of_str [65] = Some (65 :: repeat 32 10)) by (vm_compute; reflexivity).
+  rewrite E in Hs. injection Hs as <-. assert (E2 : e_name exg_eB = 66 :: repeat 32 10) by (vm_compute; reflexivity).
+  rewrite E2 in Hn. discriminate Hn.
+Qed.
+
+Print Assumptions crd_repartition.
+Print Assumptions crd_free_stage.
+Print Assumptions del_crash_core.
+Print Assumptions step_crash_Delete.
+Print Assumptions step_keeps_Delete.
+Print Assumptions del_crash_example.
